@@ -313,6 +313,22 @@ def units(tier, seed):
                                    'demo %s with %s.%s spelled %r' % (demo, sec, key, sp), stubs=['jsonschema.validate -> translator'], max_seconds=300))
                 us.append(Unit('val_%d_%s_%s_missing' % (di, sec, key), val_fn(demo, sec, key, 'missing'), val_replay(demo, sec, key, 'missing'), val_setup, F2,
                                'demo %s without %s.%s' % (demo, sec, key), stubs=['jsonschema.validate -> translator'], max_seconds=300))
+    # every numeric key of the geometric-constraint and pipe sections of every design method / pipe type (one demo each): the
+    # method-specific schemas (RowWise, bi-zoned, constrained, coaxial, double U) are selected by an enum-like field of the same section
+    family = ['find_design_near_square_double_u_tube.json', 'find_design_rectangle_coaxial.json', 'find_design_bi_rectangle_double_u_tube_series.json',
+              'find_design_bi_zoned_rectangle_single_u_tube.json', 'find_design_bi_rectangle_constrained_single_u_tube.json', 'find_design_rowwise_single_u_tube.json']
+    for demo in family:
+        inst = json.load(open(demo_path(demo)))
+        short = demo[len('find_design_'):-len('.json')]
+        for sec in ('geometric_constraints', 'pipe', 'design', 'borehole'):
+            for key, val in sorted(inst.get(sec, {}).items()):
+                if isinstance(val, bool) or not isinstance(val, (int, float)):
+                    continue
+                hows = ['symbolic', 'missing', 'string'] if tier == 'thorough' else ['symbolic']
+                for how in hows:
+                    us.append(Unit('fam_%s_%s_%s_%s' % (short, sec, key, how), val_fn(demo, sec, key, how), val_replay(demo, sec, key, how), val_setup, F2,
+                                   'demo %s with %s.%s %s' % (demo, sec, key, 'an unconstrained symbolic real in [-1e7, 1e7]' if how == 'symbolic' else how),
+                                   stubs=['jsonschema.validate -> schema-to-constraint translator (regenerated from the schema files)'], max_seconds=300))
     for key in ('version', 'loads'):
         for how in ('missing', 'number', 'list', 'symbolic'):
             us.append(Unit('val_top_%s_%s' % (key, how), val_fn(demos[0], '<top>', key, how), val_replay(demos[0], '<top>', key, how), val_setup, F2,
